@@ -174,6 +174,15 @@ pub fn any_word(rng: &mut Rng, lang: &str) -> String {
             }
             _ => rand_word(rng, &alpha, 18, 70),
         },
+        18 if rng.chance(1, 3) => {
+            // symbols that neither split words nor count as letters, inside a word: "c++11", "4''x6", "a**b", "tcp/ip"
+            let sym: Vec<char> = "+*/'\"#_=@%^~|$".chars().collect();
+            let digits: Vec<char> = "0123456789".chars().collect();
+            let run: String = { let c = *rng.pick(&sym); (0..rng.range(1, 3)).map(|_| if rng.chance(1, 4) { *rng.pick(&sym) } else { c }).collect() };
+            let head = rand_word(rng, &alpha, 1, 5);
+            let tail = if rng.chance(1, 2) { rand_word(rng, &digits, 1, 3) } else { rand_word(rng, &alpha, 1, 5) };
+            format!("{}{}{}", head, run, tail)
+        }
         18 => {
             let digits: Vec<char> = "0123456789".chars().collect();
             let mut w = rand_word(rng, &digits, 1, 4);
